@@ -264,6 +264,12 @@ func standardRun(t *testing.T, seed uint64, p *Plan, out *Outcome, h runHooks) *
 			for try := 0; err != nil && try < h.newClientRetries; try++ {
 				cl, err = mk()
 			}
+			for try := 0; err == errConnExpired && try < 5; try++ {
+				// a connection reached its ConnLifetime during the constructor's own exchange: the constructor gives up
+				// with the internal error (DESIGN.md 15.8); the application would call it again
+				s.Stats["setup.retried-after-lifetime-expiry"]++
+				cl, err = mk()
+			}
 			if err != nil {
 				setupErr = err
 				return
